@@ -60,6 +60,8 @@ EXPECT = {
     "seed-C11-v": ["C11"], "seed-C12-v": ["C12", "C04"], "seed-C13-v": ["C13"], "seed-C15-v": ["C15", "C04"], "seed-C16-v": ["C16"],
     "seed-C02-w": ["C02"], "seed-C03-w": ["C03"], "seed-C05-w": ["C05"], "seed-C06-w": ["C06"], "seed-C07-w": ["C07"], "seed-C08-w": ["C04", "C16"], "seed-C11-w": ["C11", "C16"],
     "seed-C12-w": ["C12"], "seed-C13-w": ["C13"], "seed-C15-w": ["C15"], "seed-C16-w": ["C16"], "seed-C19-w": ["C19"],
+    "seed-C02-s": ["C02"], "seed-C03-s": ["C03"], "seed-C05-s": ["C05"], "seed-C06-s": ["C06"], "seed-C09-s": ["C09"], "seed-C10-s": ["C10"], "seed-C12-s": ["C12", "C04"],
+    "seed-C13-s": ["C13"], "seed-C14-s": ["C14"], "seed-C16-s": ["C16", "C01"], "seed-C17-s": ["C17"], "seed-C18-s": ["C18"], "seed-C19-s": ["C19"],
     "seed-C07-o": ["C07"], "seed-C08-o": ["C08"], "seed-C10-o": ["C10"], "seed-C11-o": ["C11"], "seed-C13-o": ["C13"], "seed-C16-o": ["C16"], "seed-C19-o": ["C19"],
 }
 
